@@ -61,6 +61,50 @@ CLAIMED = {
    note='Model granularity is one Python statement (two steps for initialisation); bytecode-level interleavings are outside. One genuine defect repaired (fix: 44e77d8).',
    technique='Lean 4 invariant proof over a small-step semantics of n threads (all schedules, with exceptions) + decide over extracted control-flow IR + schedule/fault exploration on the real code',
    design='§7 C20'),
+ 'C02': dict(
+   text='Theorem parse_text (all inputs): if the modelled parse returns, joining the texts of the statement trees plus a dropped whitespace-typed tail gives exactly the input; node_text_is_leaf_values for every node. '
+        'Composes C01 (lexer lossless), C04 (splitter partition) and group_leaves (each of the 25 passes, for any pass order, keeps leaf values in order — ~2700 lines of proofs over the grouping model). '
+        'The grouping model is tied to the code by S-TREE (full trees, 0 mismatches on >400k statements in validation) and the pass order/tables are regenerated from the source.',
+   note='Trusted: Lean kernel; hand-written grouping model tied by differential testing (S-TREE), including the M3 recursion equivalence; translator for pass order and class tables.',
+   technique='Lean 4 theorems (loop invariants per pass, lifted through the recursion scheme) + differential correspondence on full trees',
+   design='§7 C02'),
+ 'C03': dict(
+   text='Theorems: leaves_are_the_lexer_tokens (LeafRel: same values/order, types equal unless re-typed to Operator), groups_nonempty (no empty group after all 25 passes), navigation specs '
+        '(get_token_at_offset for every offset, token_next/prev/first/index). Parent pointers, identity and cached values are properties of the real objects: checked by the oracle on every node of every sampled tree; '
+        'within/has_ancestor/is_child_of compared with the path-based model by S-ACC.',
+   note='Partial: bookkeeping clause (parent/identity/cached value) is exploration on the real objects, not a theorem (the pure tree has no pointers).',
+   technique='Lean 4 theorems over the grouping and accessor models + oracle over real object graphs + differential correspondence',
+   design='§7 C03'),
+ 'C09': dict(
+   text='Proved so far for the real model of _group_matching: leaves kept exactly for any class/list (balanced or not) and no group empty (opener strictly before closer). The refinement to the textbook '
+        'frame-stack matcher is proved for the simplified loop (proto/Match.lean) and is being ported (SqlProofs/MatchSpec.lean). Oracle: spans of the six classes vs an independent stack matcher over the flattened leaves on biased unbalanced inputs.',
+   note='Partial: pairing itself is currently established by the oracle + S-TREE; end-to-end (later passes keep these groups) is oracle only.',
+   technique='Lean 4 invariant proofs over the matching loop + independent reference matcher as oracle + differential correspondence',
+   design='§7 C09'),
+ 'C11': dict(
+   text='Oracle-centred: each grammar script is re-spelled (every inter-token whitespace run and every inner whitespace of multi-word keywords replaced, keywords re-cased) and statement count, get_type and tree shape compared; '
+        'S-LEX/S-SPLIT/S-TREE on both spellings tie the model. Theorems available: split_value_irrelevant (C05) and the kwNorm normalisation facts; the per-pass simulation theorems are not proved.',
+   note='Partial: invariance theorems for grouping passes not proved. Two genuine defects repaired (fix: 770a1b4 keyword normalized, c10144b AS test).',
+   technique='metamorphic exploration on the real code + differential correspondence; Lean theorems only for the splitter/normalisation part',
+   design='§7 C11'),
+ 'C12': dict(
+   text='Theorems over every Identifier/Function of canonical shape [qual .]? name (ws+ [AS ws+]? alias)? with arbitrary names/quoting/whitespace: get_real_name/get_parent_name/get_alias/get_name/has_alias return the written parts with quotes removed; '
+        'remove_quotes lemmas; name accessors never raise on trees with non-empty nodes. That grouping builds this shape in each syntactic context is checked by the oracle (planted references in six contexts) and S-TREE/S-ACC.',
+   note='Partial: identifier_shape in contexts is sampled. Accessor model tied by S-ACC (0 mismatches on 166k statements in validation).',
+   technique='Lean 4 theorems over the accessor model + oracle with planted references + differential correspondence',
+   design='§7 C12'),
+ 'C13': dict(
+   text='Theorems (universal in the child list): get_identifiers_spec, get_cases_spec/total, get_parameters/Comparison error characterisations; decide obligations that Where.M_OPEN/M_CLOSE regenerated from the source are the lists the property names. '
+        'Oracle: queries built from known parts (WHERE x every closer x nesting, lists, calls, CASE, comparisons, typed literals) checked against the written parts.',
+   note='Partial: that earlier passes deliver the assumed children (where_extent etc.) is sampled. One genuine defect repaired (fix: 8630182); two known findings (KF-C13-1, KF-C13-2).',
+   technique='Lean 4 theorems over the accessor model + decide over regenerated class tables + oracle with constructed queries',
+   design='§7 C13'),
+ 'C18': dict(
+   text='Theorems: get_type on any tree with a leading DML/DDL keyword (after whitespace/comments) is its normalised spelling whatever follows; UNKNOWN for empty statements; CTE walk fuel irrelevance; kwNorm collapses case and inner whitespace. '
+        'Oracle: grammar statements x comment/whitespace prefixes x casings x continuations; S-ACC.',
+   note='Partial: survival of the leading keyword through grouping and the CTE clause are sampled. Known finding KF-C18-1 (keyword directly before ( or .).',
+   technique='Lean 4 theorems over the accessor model + oracle + differential correspondence',
+   design='§7 C18'),
 }
 TITLES = {}
 for line in open(os.path.join(VERIF, 'properties.jsonl')):
